@@ -264,7 +264,8 @@ def valid_case(draw):
         else:
             r = draw(st.sampled_from([None, None, "anchored", "noninternal"]))
         regular = r is None and not bopt
-        ps = draw(params_strategy(seq, allow_o=r != "anchored", allow_anywhere=regular and not in_linked,
+        # ';anywhere' on -b is redundant but accepted (the adapter stays an anywhere adapter)
+        ps = draw(params_strategy(seq, allow_o=r != "anchored", allow_anywhere=(regular or bopt) and not in_linked,
                                   allow_rightmost=regular and side == "front" and not in_linked,
                                   allow_required=in_linked))
         return {"seq": seq, "restriction": r, "side": side, "params": ps, "bopt": bopt}
@@ -626,7 +627,7 @@ def sweep_valid(spec):
                 keys = {k for k, _ in ps}
                 if r == "anchored" and "o" in keys:
                     continue
-                if "anywhere" in keys and (r or opt == "b"):
+                if "anywhere" in keys and r:
                     continue
                 if "rightmost" in keys and (r or opt != "g"):
                     continue
